@@ -153,6 +153,12 @@ P['C19']={
  "quick_timeout_s":30,
  "required":[K+"Reconcile:post:applied",K+"Reconcile:post:others_untouched",K+"Reconcile:post:ignored",K+"loadSecrets:post:same_namespace",K+"loadSecrets:post:indexed",K+"Reconcile:post:err_only_from_get"],
  "note":"the token-endpoint requests read the secret at request time (C04/C11 request postconditions speak about cfg.GetClientSecret() at the call); delivery of Kubernetes events and the data race between Reconcile's write and readers (C16) are not decided; PreRun / ServeContext (controller-runtime wiring) are not under contract"}
+P['C18']={
+ "functions":["oidc.sessionStoreFactory.PreRun","oidc.NewMemoryStore"],
+ "refines":["oidc.sessionStoreFactory.Get"],
+ "posts":{A+"getCookieName":[], H+"Process":["ok_justified","ok_not_timed_out","deny_content"], H+"retrieveTokens":["exchange_request"], H+"refreshToken":["request"], H+"redirectToIDP":["location","redirect"]},
+ "required":["oidc.sessionStoreFactory.PreRun:post:timeouts_wired","oidc.sessionStoreFactory.PreRun:post:exclusive","oidc.sessionStoreFactory.Get:refine:SessionStoreFactory.Get.which"],
+ "note":"own endpoints / credentials / cookie prefix: every IdP request, redirect and cookie is pinned to the handler's own configuration by the C04/C11/C13/C05 postconditions; which store (with which timeouts) a filter gets is PreRun's postcondition — it holds for configurations with a single OIDC filter and fails otherwise (known finding K3)"}
 P['C03']={
  "posts":{
   H+"retrieveTokens":["login_expiry","redirect_back","bind","consumed","count","view"],
